@@ -538,7 +538,14 @@ func (w *Writer) Put(ref Reference, obj Object) error {
 			return err
 		}
 	} else {
-		err := w.setXRef(ref, &xRefEntry{Pos: w.w.pos, Generation: ref.Generation()})
+		// An object which cannot be formatted is refused before its
+		// cross-reference entry is made and before "N G obj" is written:
+		// a failed Put leaves no trace in the file.
+		err := checkFormat(obj, w.outputOptions)
+		if err != nil {
+			return fmt.Errorf("Writer.Put: %w", err)
+		}
+		err = w.setXRef(ref, &xRefEntry{Pos: w.w.pos, Generation: ref.Generation()})
 		if err != nil {
 			return fmt.Errorf("Writer.Put: %w", err)
 		}
